@@ -107,9 +107,10 @@ _reg("C02", c02.run,
                 "fields unconverted. PARTIAL by nature: that h5py/libhdf5 store and return the same bits, and that memory "
                 "layout is inert, are contract assumptions exercised only by the correspondence/oracle run.",
      level_note="Lean kernel; hand-written models of to_dict/from_dict/write/read and of the h5py contract (create_dataset conversions, item[()], link names, iteration order), validated against the real library and real files on every run.")
-_reg("C03", c03.run, translator=("T1", "T2", "T3"),
+_reg("C03", c03.run, translator=("T1", "T2", "T3"), module="NirVerif.Properties.C03File",
      theorems=["NirVerif.C03.names", "NirVerif.C03.names_cover", "NirVerif.C03.toDict_keys_generic", "NirVerif.C03.root",
-               "NirVerif.C03.edges_layout", "NirVerif.C03.value_layout"],
+               "NirVerif.C03.edges_layout", "NirVerif.C03.value_layout", "NirVerif.Lemmas.write_encodes",
+               "NirVerif.C03.file_exact", "NirVerif.C03.leaf_group", "NirVerif.C03.graph_group"],
      rule="Random graphs of the C01 domain (all primitives, nesting, metadata, unicode names, 16 dtypes, every hyper-parameter "
           "container form): the raw h5py traversal of the written file is compared (a) with an independent Python reference "
           "encoder written from the documentation and (b) with the tree the Lean model's writer prints; read_version is "
@@ -119,7 +120,12 @@ _reg("C03", c03.run, translator=("T1", "T2", "T3"),
                 "renamed, added or dropped field, or storing input_type/output_type, fails the build); the file root is "
                 "exactly {node, version} and read_version returns the written version; edges are an n-by-2 string array in "
                 "edge order (empty float64 dataset for no edges); strings, arrays and ints are stored as documented. The "
-                "full tree equality for arbitrary graphs is established by the correspondence run, not by a theorem.",
+                "WHOLE FILE, for every node or graph at any nesting depth and with any metadata (file_exact): whenever "
+                "write succeeds the file holds exactly version and node, and the node group is exactly the encoding of "
+                "to_dict() - one dataset per plain entry holding what create_dataset makes of the value, one sub-group per "
+                "dictionary entry (recursively), no metadata member for empty metadata, no name twice and NOTHING ELSE "
+                "(Encodes / write_encodes); spelled out for a primitive's group (leaf_group) and for a graph's group "
+                "(graph_group: type, edges, nodes/<name> per child and no other link, metadata only when non-empty).",
      level_note="Lean kernel + T1; h5py's create_dataset conversions are a modelled contract validated against real files on every run.")
 _reg("C04", c04.run,
      theorems=["NirVerif.C04.width_invariance", "NirVerif.C04.scalar_width_invariance", "NirVerif.C04.string_decoded",
@@ -326,7 +332,7 @@ _reg("C19", c19.run,
                 "broadcasts to that shape, and w_in is then stored with that shape; accepted nodes have defined types.",
      level_note="Lean kernel; hand-written model of __post_init__; numpy broadcasting and `ones_like * w_in` are modelled "
                 "on the dtype combinations the generators produce (same float dtype, Python float with float64).")
-_reg("C20", c20.run, translator=("T6", "T7"), module="NirVerif.Properties.C20Crossings",
+_reg("C20", c20.run, translator=("T6", "T7"), module="NirVerif.Properties.C20Cuba",
      theorems=["NirVerif.C20.zero", "NirVerif.C20.add", "NirVerif.C20.ode", "NirVerif.C20.relax", "NirVerif.C20.reset",
                "NirVerif.C20.spike_some", "NirVerif.C20.spike_none", "NirVerif.C20.cuba_euler",
                "NirVerif.C20.record_transparent", "NirVerif.C20.recorded_value",
@@ -335,7 +341,7 @@ _reg("C20", c20.run, translator=("T6", "T7"), module="NirVerif.Properties.C20Cro
                "NirVerif.C20.lif_records_independent", "NirVerif.C20.runA", "NirVerif.C20.runB",
                "NirVerif.C20.argmin3_min", "NirVerif.C20.good_init", "NirVerif.C20.good_step", "NirVerif.C20.good_all",
                "NirVerif.C20.spike_event_at_threshold", "NirVerif.C20.below_between_events",
-               "NirVerif.C20.below_after_last_event"],
+               "NirVerif.C20.below_after_last_event", "NirVerif.C20.cuba_run_euler", "NirVerif.C20.cuba_run_length"],
      rule="Random tau in [1e-4,1], R, v_leak in [-2,2] (85% non-zero), v_threshold > v_leak, initial voltages below "
           "threshold: zero-step, split-step, long-time limit, RK4 comparison, threshold crossing of predicted spike "
           "times; event loop on 1-7 step currents with 5 recording intervals incl. non-dividing ones; CubaLIF reference "
